@@ -354,6 +354,28 @@ func runFrontEnds(r *common.Rand, tier string, o *common.Out, rg *tcpRig, next f
 	if rg == nil {
 		return
 	}
+	// systematically: the service named in the header or only in the URL x each required header left out x a service that
+	// takes a structure or raw bytes (for which the absent serialize type would read as "raw bytes")
+	for _, svc := range []string{"Arith", "Raw"} {
+		for _, inURL := range []bool{false, true} {
+			for leave := 0; leave < 4; leave++ {
+				h := frontHdr{id: "21", ser: "1", path: svc, meth: "Mul", body: `{"Id":1,"A":2,"B":3}`, urlpath: "/"}
+				if svc == "Raw" {
+					h.ser, h.body = "0", "1:2:3"
+				}
+				if inURL {
+					h.path, h.urlpath = "", "/"+svc
+				}
+				if leave&1 != 0 {
+					h.meth = ""
+				}
+				if leave&2 != 0 {
+					h.ser = ""
+				}
+				doGw(o, next(), rg, h)
+			}
+		}
+	}
 	for i := 0; i < ngw; i++ {
 		doGw(o, next(), rg, genFront(r, true))
 	}
